@@ -909,7 +909,13 @@ func commentSite(r *rng.R, p *pProject) string {
 	case "field":
 		t := &p.Types[rng.Pick(r, structs)]
 		fi := r.Intn(len(t.Fields))
+		for fi > 0 && t.Fields[fi].Joined {
+			fi-- // `A, B T` is one declaration with one comment: it is printed with the first name
+		}
 		t.Fields[fi].Doc = site.Line
+		for k := fi + 1; k < len(t.Fields) && t.Fields[k].Joined; k++ {
+			t.Fields[k].Doc = site.Line
+		}
 		site.Type, site.Pkg, site.Member = t.Name, t.Pkg, t.Fields[fi].Name
 	case "type":
 		t := &p.Types[r.Intn(len(p.Types))]
